@@ -282,3 +282,43 @@ Proof.
     - destruct (step sc s0 e) as [s2|] eqn:Es; [|discriminate]. eapply IH; eauto using rows_kept_step. }
   apply (G _ _ _ H). unfold rows_kept. cbn. constructor.
 Qed.
+
+(* ---------- C12 / C03: the results summary is exactly what was really recorded ---------- *)
+Theorem summary_faithful sc tr1 p res miss tr2 s : run sc (tr1 ++ ESummary p res miss :: tr2) = Some s ->
+  exists s1, run sc tr1 = Some s1 /\
+    Permutation res (processed s1) /\
+    (forall j, In j miss <-> In j (all_jobs sc) /\ ~ In j (row_names (processed s1))) /\
+    (forall r, In r res -> In r (rows_of tr1)).
+Proof.
+  intros H. destruct (run_prefix _ _ _ _ H) as (s1 & H1 & H2). exists s1. split; [exact H1|].
+  cbn [run_from] in H2. destruct (step sc s1 (ESummary p res miss)) as [s2|] eqn:Es; [|discriminate].
+  clear H2. revert Es. intros Es. unfold step in Es. cbv beta iota in Es.
+  destruct (in_round s1 p) as [r|]; [|discriminate].
+  match type of Es with (if ?c then _ else _) = _ => destruct c eqn:G; [|discriminate] end.
+  repeat match goal with F : _ && _ = true |- _ => apply andb_true_iff in F; destruct F end.
+  assert (P : Permutation res (processed s1)).
+  { match goal with A : all_mem_rows res (processed s1) = true, B : all_mem_rows (processed s1) res = true |- _ =>
+      pose proof (remove_rows_perm _ _ A) as PA; pose proof (remove_rows_perm _ _ B) as PB end.
+    (* |res| <= |processed| and |processed| <= |res| with multiset inclusion both ways *)
+    assert (L1 : (length res <= length (processed s1))%nat) by (rewrite <- (Permutation_length PA), app_length; lia).
+    assert (L2 : (length (processed s1) <= length res)%nat) by (rewrite <- (Permutation_length PB), app_length; lia).
+    assert (E : remove_rows res (processed s1) = []).
+    { apply length_zero_iff_nil. apply Permutation_length in PA. rewrite app_length in PA. lia. }
+    rewrite E in PA. cbn in PA. exact PA. }
+  split; [exact P|]. split.
+  - intros j. match goal with Q : eqsetN miss _ = true |- _ => rewrite eqsetN_spec in Q; rewrite Q end. apply diffN_spec.
+  - intros x Hx. destruct (ghost_run_from _ _ _ _ H1) as (_ & _ & _ & R). cbn in R. rewrite <- R.
+    pose proof (c11_rows_kept _ _ _ H1) as K. rewrite <- R in K.
+    eapply Permutation_in; [symmetry; exact K|]. apply in_app_iff. right. eapply Permutation_in; [exact P|exact Hx].
+Qed.
+
+(* a job with a blocker that never got an outcome is never started *)
+Theorem never_started_without_blocker_outcome sc tr s j d : run sc tr = Some s ->
+  In d (deps sc j) -> ~ In d (row_names (rows_of tr)) -> ~ In j (launched_of tr).
+Proof.
+  intros H Hd Hn Hl. unfold launched_of in Hl. apply in_flat_map in Hl. destruct Hl as (e & He & Hj).
+  destruct e; try contradiction. cbn in Hj. destruct Hj as [<-|[]].
+  apply in_split in He. destruct He as (l1 & l2 & ->).
+  pose proof (c02_system _ _ _ _ _ _ H d Hd) as C. apply Hn.
+  unfold rows_of in *. rewrite flat_map_app, row_names_app. apply in_app_iff. left. exact C.
+Qed.
